@@ -6,6 +6,7 @@ import NxProofs.Channel
 import NxProofs.Cipher
 import NxProofs.Negotiation
 import NxModel.Nex.C14Wire
+import NxProofs.C14Str
 /-!
 # C14 — values survive a client → server → client round trip through any generated method
 
@@ -192,6 +193,34 @@ theorem struct_header_auto (cfg : Cfg) (minor : Nat) :
     ∧ (rmcClientCfg cfg minor).nexVersion = cfg.nexVersion ∧ (rmcClientCfg cfg minor).pidSize = cfg.pidSize :=
   ⟨rmcClientCfg_header cfg minor, rmcClientCfg_keep cfg minor, (rmcClientCfg_other cfg minor).1, (rmcClientCfg_other cfg minor).2⟩
 
+
+/-! ## string-valued positions, at the level of Python `str`
+
+The interpreter carries a string as its UTF-8 bytes and drops the last *byte* when reading (difference G4 of
+`NxModel/Nex/Schema.lean`); `StreamIn.string` drops the last *character* of the decoded text. For every encodable `str`
+(a Lean `String`: any sequence of Unicode scalar values — U+0000 anywhere, white space, U+D7FF / U+E000 / U+FFFF included)
+the two are the same codec, so `rpc_roundtrip_request` / `rpc_roundtrip_response`, which speak about `Val.str (utf8 s)`,
+speak about `s` itself. Proofs in `NxProofs/C14Str.lean` (over C15's `wString` / `rString`). -/
+
+/-- a string position is written identically by the interpreter and by `StreamOut.string`, is encodable exactly up to
+    65534 UTF-8 bytes, and reads back — bytewise in the interpreter, characterwise in `StreamIn.string` — as the string
+    that was written, whatever it ends in; the rest of the message is untouched -/
+theorem string_position_char_level (s : String) :
+    encStr (Nex.utf8Enc s.toList) = Nex.wString (some s)
+    ∧ ((∃ b, encStr (Nex.utf8Enc s.toList) = .ok b) ↔ (Nex.utf8Enc s.toList).length ≤ 65534)
+    ∧ ∀ b, Nex.wString (some s) = .ok b → ∀ rest,
+        decStr (b ++ rest) = .ok (some (Nex.utf8Enc s.toList), rest) ∧ Nex.rString (b ++ rest) = .ok (some s, rest) :=
+  ⟨C14Str.encStr_eq_wString s, C14Str.encodable_iff s, fun _ h rest => C14Str.decStr_eq_rString h rest⟩
+
+/-- strings that differ (for instance only in trailing U+0000) have different wire forms -/
+theorem string_position_injective {s t : String} {b : Bytes}
+    (hs : Nex.wString (some s) = .ok b) (ht : Nex.wString (some t) = .ok b) : s = t :=
+  C14Str.wString_injective hs ht
+
+/-- non-trivial points: a string ending in U+0000, one consisting of U+0000 only, U+FFFF -/
+example : Nex.rString ((Nex.wString (some "abc\x00")).toOption.getD [] ++ [7]) = .ok (some "abc\x00", [7])
+    ∧ Nex.rString ((Nex.wString (some "\x00")).toOption.getD []) = .ok (some "\x00", [])
+    ∧ decStr ((Nex.wString (some "\uffff\x00")).toOption.getD []) = .ok (some [0xEF, 0xBF, 0xBF, 0], []) := by decide
 
 /-! ## over the real PRUDP leg -/
 
